@@ -119,16 +119,26 @@ def ac_variants(e):
             return f"(-{rebuild(n.operand)})"
         if isinstance(n, ast.Call):
             return f"{n.func.id}({', '.join(rebuild(a) for a in n.args)})"
-        if isinstance(n, (ast.Compare, ast.IfExp)):
-            return f"({ast.unparse(n)})"
+        if isinstance(n, ast.IfExp):
+            return f"({rebuild(n.body)} if {rebuild(n.test)} else {rebuild(n.orelse)})"
+        if isinstance(n, ast.Compare):
+            return "(" + rebuild(n.left) + "".join(f" {CMPS[type(o)]} {rebuild(c)}" for o, c in zip(n.ops, n.comparators)) + ")"
+        if isinstance(n, ast.Tuple):
+            return "(" + ", ".join(rebuild(e_) for e_ in n.elts) + ("," if len(n.elts) == 1 else "") + ")"
         return ast.unparse(n)
     return rebuild(tree)
 
 
 import ast as _ast
+CMPS = {_ast.Lt: "<", _ast.LtE: "<=", _ast.Gt: ">", _ast.GtE: ">=", _ast.Eq: "==", _ast.NotEq: "!="}
 OPS = {_ast.Sub: "-", _ast.FloorDiv: "//", _ast.Mod: "%", _ast.Pow: "**", _ast.Add: "+", _ast.Mult: "*"}
 chains = ["2.0*t + 3.0*u", "t*2.0 + u*3.0 + 1", "(t + u)*(u + 2)*3", "abs(t*u*2 + u*t) + 1", "(t*u + 2*t) - (u + 1 + t)", "min(t + 2 + u, u*3*t)",
-          "((t + 1)*(u + 2)) + ((u + 2)*(t + 1))*2"] + rng.sample([e for e in exprs if "+" in e or "*" in e], 60 if not thorough else 300)
+          "((t + 1)*(u + 2)) + ((u + 2)*(t + 1))*2",
+          # + / * chains in every position of the other constructs: branches and test of an if-else, operands of a comparison,
+          # arguments of a call, operand of a unary minus, operands of a non-commutative operator
+          "t if u else t + u + 2", "t + u + 1 if u else t", "t if t + u + 1 < 2 * u * t else u", "(t * u * 3 if t else u + 2 + t) + 1",
+          "(t + u + 2) < (u * t * 3)", "min(t + u + 2, 3 * u * t)", "-(t + u + 2)", "(t + u + 1) - (u * t * 2)", "(t * u * 2) // (u + 1 + t)",
+          "abs(t if u + t + 1 else u * 2 * t)", "(1 + t + u) ** 2"] + rng.sample([e for e in exprs if "+" in e or "*" in e], 60 if not thorough else 300)
 for e in chains:
     s0 = sig(e)
     for _ in range(6):
